@@ -639,6 +639,14 @@ def r2(ctx: RuleCtx) -> None:
                     ctx.require(verdict, f'{holder} {opn}: path join of (held, other)', impl.mod, qn, f'{holder} {opn}: {_fmt_den(got)}',
                                 f'the `/` operator of {holder} computes {_fmt_den(got)}; it must join the held string (left) with the operand (right), in that order', sp.last_node)
                     continue
+                if opn in ('IN', 'NOT_IN'):
+                    got = _norm_not(got)
+                    descent = _delegated_descent(repo, impl, got) if got not in want else None
+                    if descent is not None:
+                        ctx.violation(impl.mod, qn, f'{holder} {opn}: delegated to a scan that descends into nested elements',
+                                      f'the {opn} operator of {holder} computes {_fmt_den(got)}; {descent}: `in` / `not in` test membership among the '
+                                      f'container\'s OWN elements ({" or ".join(_fmt_den(w) for w in want)}), an element of a nested array is not a member', sp.last_node)
+                        continue
                 if got not in want and not _understood(got):
                     raise Undecided(f'{holder} {opn}: the implementation computes {_fmt_den(got)}, a form this rule does not model')
                 ctx.require(got in want, f'{holder} {opn}: {_fmt_den(got)}', impl.mod, qn, f'{holder} {opn}: {_fmt_den(got)}',
@@ -658,6 +666,50 @@ def r2(ctx: RuleCtx) -> None:
                 sup = [t for t in subterms(r) if is_call(t) and t[2] == '.op_div' and is_call(t[3]) and t[3][2] == 'super' and t[4] == ('OTHER',)]
                 okd = okd and bool(sup)
             ctx.require(okd, f'{sub}./ is derived from StringHolder./ on the same operand', sm, f'{sub}.op_div', f'{sub} DIV', f'{sub}.op_div does not return a value derived from super().op_div(other)', impl.fn)
+
+
+def _norm_not(t: T.Any) -> T.Any:
+    """`not (a in b)` is `a not in b` and vice versa (the Python operators are defined that way)."""
+    if isinstance(t, tuple) and len(t) == 3 and t[0] == 'op' and t[1] == 'Not' and len(t[2]) == 1:
+        x = t[2][0]
+        if isinstance(x, tuple) and len(x) == 3 and x[0] == 'op' and x[1] in ('In', 'NotIn') and len(x[2]) == 2:
+            return ('op', 'NotIn' if x[1] == 'In' else 'In', x[2])
+    return t
+
+
+def _delegated_descent(repo: Repo, impl: Impl, got: T.Any) -> T.Optional[str]:
+    """The operator hands its work to another method of the same class (`SELF.m(..)`, after _strip_calls) and that method (or a function nested in
+    it) is a scan that calls ITSELF on the loop element and uses the result: its answer depends on the elements of nested containers.  Returns the
+    description of that recursion, None when the delegate is not of this kind (the caller then leaves the form undecided)."""
+    def walk(x: T.Any) -> T.Iterator[T.Any]:
+        if isinstance(x, tuple):
+            yield x
+            for y in x:
+                yield from walk(y)
+    for c in walk(got):
+        if not (len(c) == 5 and c[0] == 'call' and isinstance(c[1], str) and c[1].startswith('SELF.') and '.' not in c[1][5:] and c[2] is None):
+            continue
+        target = None
+        for m, cl in mro_cached(repo, impl.mod, impl.owner):
+            target = next((st for st in cl.body if isinstance(st, ast.FunctionDef) and st.name == c[1][5:]), None)
+            if target is not None:
+                break
+        if target is None:
+            continue
+        funcs = [n for n in ast.walk(target) if isinstance(n, ast.FunctionDef)]
+        for f in funcs:
+            own = [n for n in ast.walk(f) if not any(n is not g and n in set(ast.walk(g)) for g in funcs if g is not f and g in set(ast.walk(f)))]
+            for loop in [n for n in own if isinstance(n, ast.For) and isinstance(n.target, ast.Name)]:
+                var = loop.target.id
+                for call in [n for st in loop.body for n in ast.walk(st) if isinstance(n, ast.Call)]:
+                    callee = call.func.id if isinstance(call.func, ast.Name) else (call.func.attr if isinstance(call.func, ast.Attribute) and norm(call.func.value) in ('self', 'cls') else None)
+                    if callee != f.name or not any(isinstance(a, ast.Name) and a.id == var for a in call.args):
+                        continue
+                    used = not any(isinstance(st, ast.Expr) and st.value is call for st in ast.walk(loop))
+                    if used:
+                        where = f.name if f is target else f'{target.name}.{f.name}'
+                        return f'{c[1][5:]} is a scan whose loop calls {where}({var}) on the element itself and uses the answer (descent into nested arrays)'
+    return None
 
 
 def _understood(t: T.Any) -> bool:
